@@ -33,7 +33,7 @@ PROPS["C02"] = {
     "technique": "Rocq proof over hand-written Gallina model + exhaustive/differential correspondence (vm_compute)",
     "props_file": "Props/C02.v",
     "eval_modules": ["Run.EvalFrame", "Run.EvalClient"],
-    "imports": ["XS.Lib.Bufio"],
+    "imports": ["XS.Lib.Bufio", "XS.Spec.ClientOps"],
     "kinds": {
         "validate": {"type": "case_validate", "chk": "chk_validate", "sig": "sig_validate", "scope": "N_scope"},
         "corrupt": {"type": "case_corrupt", "chk": "chk_corrupt", "sig": "sig_corrupt", "scope": "N_scope"},
@@ -81,7 +81,7 @@ PROPS["C01"] = {
     "technique": "Rocq proof by induction (fuel, geometry invariant) over Gallina models of ScanMessages and bufio.Scanner + exhaustive-partition/differential correspondence",
     "props_file": "Props/C01.v",
     "eval_modules": ["Run.EvalStream", "Run.EvalClient"],
-    "imports": ["XS.Lib.Bufio"],
+    "imports": ["XS.Lib.Bufio", "XS.Spec.ClientOps"],
     "kinds": {
         "split": {"type": "case_split", "chk": "chk_split", "sig": "sig_split", "scope": "N_scope"},
         "scan": {"type": "case_scan", "chk": "chk_scan", "sig": "sig_scan", "scope": "N_scope"},
@@ -141,3 +141,56 @@ CLIENT_TRUSTED = STREAM_TRUSTED + ["scripted port: reads through the chunking re
                                    "Client.MeasurementData values are compared on the Go side with a fresh decoding of RawPacket() by the same Go type (the codecs themselves are C04)"]
 CLIENT_KIND = {"type": "case_client", "chk": "chk_client", "sig": "sig_client", "scope": "N_scope"}
 CLIENT_RULE = "a real Client over a scripted port executes an operation list (Receive, ScanMeasurementData, RawMessage, MessageIdentifier, DataType, RawPacket, MeasurementData, commands); every return value is compared with the Gallina client model (correspondence) and with the abstract client over the reference segmentation (oracle). non-trivial = at least one reported packet, rejected frame or command, error-with-data, or non-EOF terminal; distinct = distinct case terms. "
+
+CLIENT_LEVEL_NOTE = "Trusted: Coq kernel; hand-written models of client.go, ScanMessages, message.go, mtdata2.go and of bufio.Scanner + scripted port (validated by correspondence on every run, not generated); translator (dispatch table, DataSize, command table); harness. No axioms."
+
+PROPS["C03"] = {
+    "level_text": "Theorem client_refines_spec (Props/C03.v): for every stream, read schedule (empty reads included), error convention and operation sequence, the model client - client.go rendered statement by statement over the bufio.Scanner model, with the dispatch table and size function regenerated from source - returns what the abstract client over the reference segmentation returns wherever the latter is defined (API protocol respected). On the abstract client: scan steps visit exactly the packets of the current measurement payload, once each, in wire order, true exactly for supported complete packets, then false for ever; at most |payload|/3 steps; after any receive no packet is current and everything scanned later belongs to the frame just delivered. Proof by a simulation relation preserved by every operation. Values: checked by the correspondence against a fresh decoding by the same Go type.",
+    "level_note": CLIENT_LEVEL_NOTE,
+    "technique": "Rocq refinement proof (simulation relation, induction over operation sequences) + differential correspondence on call sequences",
+    "props_file": "Props/C03.v",
+    "eval_modules": ["Run.EvalClient"],
+    "imports": ["XS.Lib.Bufio", "XS.Spec.ClientOps"],
+    "kinds": {"client": CLIENT_KIND},
+    "rule": CLIENT_RULE + "C03 generators: 1-5 messages per stream: measurement messages of random packets over all 25 supported types x 4 precisions x 4 coordinate codes (reserved bits sometimes set) with well-sized, truncated, oversized and unknown-type packets, truncated payloads, other identifiers, corrupted frames; the documented receive/scan loop run adaptively, scanning completely or stopping half way; one clean message carrying all 25 types per precision x coordinate code; corrupted-frame streams",
+    "trusted": CLIENT_TRUSTED,
+    "assumptions": ["API protocol as in DESIGN section 10.1", "decoded values are compared on the Go side with a fresh decoding of RawPacket() (C04 covers the decoders)"],
+}
+PROPS["C08"] = {
+    "level_text": "Theorems (Props/C08.v): the command table (request identifier, awaited identifier) regenerated from client.go equals the protocol table; step_refines covers commands, so any sequence of commands and receives on one client under any fragmentation behaves as the abstract client; on the abstract client: exactly one frame new_message(req, payload) is written (well-formed by C06), frames up to and including the first accepted frame with the awaited identifier are consumed skipping unrelated valid ones, that acknowledge is current (its packets scannable for go-to-measurement), the next receive yields the following frame; a failed write consumes nothing; no acknowledge => the end-of-stream cause.",
+    "level_note": CLIENT_LEVEL_NOTE,
+    "technique": "Rocq refinement proof + translator-generated command table + differential correspondence on command sequences",
+    "props_file": "Props/C08.v",
+    "tie_files": ["Tie/CommandsAgree.v"],
+    "eval_modules": ["Run.EvalClient"],
+    "imports": ["XS.Lib.Bufio", "XS.Spec.ClientOps"],
+    "kinds": {"client": CLIENT_KIND},
+    "rule": CLIENT_RULE + "C08 generators: 1-7 commands per case (each of the 11 at least twice; same command twice and Set-then-Get pairs), payloads from random output / CAN configurations incl. 64+ / 32 settings (extended-length requests), incoming stream = (unrelated valid frames)* ack (following frame) or no ack or a corrupted frame before the ack, planned write failures, every schedule family, both error conventions; after each command RawMessage/MessageIdentifier, for go-to-measurement a scan, then a receive",
+    "trusted": CLIENT_TRUSTED,
+    "assumptions": ["request payloads are produced by the library's own Marshal functions (C13, C15)"],
+}
+PROPS["C09"] = {
+    "level_text": "Theorems (Props/C09.v): for every byte stream, read schedule and error convention, every observation the API protocol allows is a value, never a panic (client_refines_spec + the abstract client never asks for a panic); all model functions are total Gallina functions with explicit fuel and the fuel is shown sufficient (scan: mu+2, receive-until: pending+unread+2), so every call returns; at most |stream|/5 frames are delivered and at most |payload|/3 scan steps report a packet; every exported decoder model is total (never OOB/Panic). Partial: a port whose Read blocks for ever is outside any executable model.",
+    "level_note": CLIENT_LEVEL_NOTE + " Runtime share not modelled: blocking reads.",
+    "technique": "Rocq refinement proof + totality lemmas + differential correspondence on arbitrary / mutated streams",
+    "props_file": "Props/C09.v",
+    "eval_modules": ["Run.EvalClient"],
+    "imports": ["XS.Lib.Bufio", "XS.Spec.ClientOps"],
+    "kinds": {"client": CLIENT_KIND},
+    "rule": CLIENT_RULE + "C09 generators: arbitrary protocol-heavy byte streams, uniformly random bytes, grammar-mutated valid traffic, bit-flipped windows of the five recorded captures, extended-length measurement messages whose packets tile 256 bytes; the documented loop run adaptively to the terminal error (three more receives after it), scanning also after rejected frames and after false steps",
+    "trusted": CLIENT_TRUSTED,
+    "assumptions": ["the reader always answers (a blocked Read is outside the model)"],
+}
+PROPS["C10"] = {
+    "level_text": "Theorems (Props/C10.v): client_refines_spec for every prefix, failure point, error value, (n, err) convention (error with the last data or by its own read, 0-byte reads before it) and fragmentation; on the abstract client the receives deliver every complete frame of the prefix in order (accepted or rejected), never the incomplete tail, then the terminal cause on that and every later receive - the port's error when the reference segmentation does not end in TooLong (io.EOF = orderly end); a rejected frame is one element of that list, frames after it are delivered. The strict statement is refuted by computation for the oversize-header shape (finding K1, known_findings.txt).",
+    "level_note": CLIENT_LEVEL_NOTE + " Finding K1 is recorded, not repaired: the check reports it as KNOWN-FINDING and fails for any other violation.",
+    "technique": "Rocq refinement proof + refutation witness by vm_compute + differential correspondence with failure injection at every offset",
+    "props_file": "Props/C10.v",
+    "eval_modules": ["Run.EvalClient"],
+    "imports": ["XS.Lib.Bufio", "XS.Spec.ClientOps"],
+    "kinds": {"client10": {"type": "case_client", "chk": "chk_client10", "sig": "sig_client", "scope": "N_scope"}},
+    "code3_key": "K1",
+    "rule": CLIENT_RULE + "C10 generators: streams of 2-4 frames (some corrupted) cut at every byte offset (every k-th for long ones), the port failing there with a random error value, with the last data or by its own read, after 0-byte reads, under whole / all-ones / random schedules; receives continue four calls past the failure; corrupted frames at every position; the K1 witness (64 KiB behind an oversize header)",
+    "trusted": CLIENT_TRUSTED,
+    "assumptions": ["'the error chain contains the port's error' is observed with errors.As on the harness's port error type; 'carries the validation failure as its cause' = errors.Unwrap is non-nil and the text has no %!w(<nil>)"],
+}
